@@ -44,6 +44,7 @@ type FuncContract struct {
 	MayPanic    []Clause
 	Inline      bool
 	Trusted     bool
+	SafetyOnly  bool // the body is checked for its own panics, callee preconditions and at-call assertions only; postconditions and frame are assumed (listed)
 	NoReturn    bool // the function never returns normally (panics / exits)
 	Pure        bool // result is a function of its arguments (and nothing else): same args -> same result
 	Uses        []string
@@ -110,7 +111,7 @@ func newContracts() *Contracts {
 	return &Contracts{Funcs: map[string]*FuncContract{}, SpecFuncs: map[string]*SpecFunc{}, Lemmas: map[string]*Lemma{}, Ghosts: map[string]*GhostVar{}, FuncFields: map[string]string{}, OpaqueTys: map[string]bool{}, NonConsensusMapLoops: map[string]string{}}
 }
 
-var directiveKW = []string{"func", "invoke", "spec", "pred", "lemma", "axiom", "ghost", "requires", "ensures", "modifies", "loop", "panics_never", "may_panic", "inline", "trusted", "uses", "noreturn", "pure", "fresh_result", "funcfield", "sink", "opaque", "maploop", "at", "opaque_calls", "panic_only_when", "stable", "own_panics_never", "alloc_unbounded", "alloc_bound", "assume_pre", "ghost_set", "assume_ensures"}
+var directiveKW = []string{"func", "invoke", "spec", "pred", "lemma", "axiom", "ghost", "requires", "ensures", "modifies", "loop", "panics_never", "may_panic", "inline", "trusted", "uses", "noreturn", "pure", "fresh_result", "funcfield", "sink", "opaque", "maploop", "at", "opaque_calls", "panic_only_when", "stable", "own_panics_never", "alloc_unbounded", "alloc_bound", "assume_pre", "ghost_set", "assume_ensures", "safety_only"}
 
 type directive struct {
 	kw    string
@@ -482,6 +483,8 @@ func (c *Contracts) loadFile(path, pkgPath string, isLib bool) error {
 				curF.Inline = true
 			case "trusted":
 				curF.Trusted = true
+			case "safety_only":
+				curF.SafetyOnly = true
 			case "noreturn":
 				curF.NoReturn = true
 			case "pure":
